@@ -989,10 +989,29 @@ func init() {
 	externals["sort.Slice"] = sortSlice
 	externals["sort.SliceStable"] = sortSlice
 
-	// ---------------- time / os odds and ends
-	externals["time.Now"] = func(fr *frame, args []value) (value, bool) {
-		panic(fr.in.unsupported("time.Now"))
+	// ---------------- maps / runtime helpers
+	externals["maps.clone"] = func(fr *frame, args []value) (value, bool) {
+		it := args[0].(iface)
+		m, _ := it.v.(*Map)
+		if m == nil {
+			return done(it)
+		}
+		n := newMap(m.keyType)
+		for i := range m.keys {
+			if !m.dead[i] {
+				n.insert(fr.in, m.keys[i], copyVal(m.vals[i]))
+			}
+		}
+		return done(iface{t: it.t, v: n})
 	}
+	externals["time.runtimeNano"] = func(fr *frame, args []value) (value, bool) { return done(int64(1)) }
+	externals["time.runtimeNow"] = func(fr *frame, args []value) (value, bool) {
+		return done(tuple{int64(1700000000), int32(0), int64(1)})
+	}
+	externals["time.now"] = externals["time.runtimeNow"]
+	externals["runtime.nanotime"] = func(fr *frame, args []value) (value, bool) { return done(int64(1)) }
+
+	// ---------------- time / os odds and ends
 	externals["os.Getenv"] = func(fr *frame, args []value) (value, bool) { return done("") }
 }
 
